@@ -90,7 +90,7 @@ BOUNDS = {
         "mem_alpha": [0x61, 0x62, 0x00], "mem_len": 4,
         "fill": [0x00, 0x61, 0xFF, 0x100, 0x161, 0xFFFFFF62],
         "a_alpha": ["a", "b", EACUTE], "a_len": 4,
-        "w_alpha": ["a", "b", EACUTE, LOWZERO, NONBMP], "w_len": 4,
+        "w_alpha": ["a", "b", EACUTE, LOWZERO, NONBMP], "w_len": 3,
         "ci_alpha": ["a", "A", "b", "B"], "ci_len": 3,
         "crc_init": [0, 1, 0xFFFFFFFF, 0x12345678],
     },
